@@ -141,8 +141,22 @@ const (
 
 // runScenario executes sc inside a fresh synctest bubble against the real
 // library and returns the recorded history.
-func runScenario(t *testing.T, sc *Scenario) (h *History) {
-	h = &History{}
+func runScenario(t *testing.T, sc *Scenario) *History {
+	// The run gets its own goroutine: when the race detector has reported
+	// something during the bubble, the testing package fails the bubble's test
+	// and synctest.Test leaves through runtime.Goexit, which must not take the
+	// worker loop with it. The deferred collection below still runs.
+	h := &History{}
+	done := make(chan struct{})
+	go func() {
+		defer close(done)
+		runScenarioIn(t, sc, h)
+	}()
+	<-done
+	return h
+}
+
+func runScenarioIn(t *testing.T, sc *Scenario, h *History) {
 	srvTLS, cliTLS := tlsConfigs()
 	be := NewSimBackend(sc.BE)
 	logger := &recLogger{}
@@ -170,6 +184,15 @@ func runScenario(t *testing.T, sc *Scenario) (h *History) {
 		}
 	}()
 
+	if sc.YieldPark > 0 {
+		yp := sc.YieldPark
+		var yn atomic.Int64
+		smtp.VerifYield = func(point string) {
+			// each caller parks in its own residue class
+			sleepClass(40+int(yn.Add(1))%8, yp)
+		}
+		defer func() { smtp.VerifYield = nil }()
+	}
 	synctest.Test(t, func(t *testing.T) {
 		baseline := runtime.NumGoroutine()
 		h.Start = time.Now().UnixNano()
@@ -202,8 +225,19 @@ func runScenario(t *testing.T, sc *Scenario) (h *History) {
 			ln.CloseErr = fmt.Errorf("listener close failed (simulated)")
 		}
 
+		// every connection's endpoints exist (and are known to the backend) before any goroutine starts
+		pairs := make([][2]*SimConn, len(sc.Conns))
+		for i := range sc.Conns {
+			srvEnd, cliEnd := NewConnPair(i)
+			pairs[i] = [2]*SimConn{srvEnd, cliEnd}
+			be.srvConns[i] = srvEnd
+		}
+
 		serveDone := make(chan struct{})
 		go func() {
+			if sc.ServeDelay > 0 {
+				sleepClass(classListen, sc.ServeDelay)
+			}
 			err := srv.Serve(ln)
 			h.ServeReturned = true
 			h.ServeAt = time.Now().UnixNano()
@@ -221,13 +255,12 @@ func runScenario(t *testing.T, sc *Scenario) (h *History) {
 		halves = make([][2]*SimConn, len(sc.Conns))
 		for i := range sc.Conns {
 			cs := &sc.Conns[i]
-			srvEnd, cliEnd := NewConnPair(i)
+			srvEnd, cliEnd := pairs[i][0], pairs[i][1]
 			srvEnd.rd.lat = cs.Lat
 			srvEnd.wr.lat = cs.LatBack
 			srvEnd.rd.caps = cs.SrvCaps
 			srvEnd.faults = cs.SrvFaults
 			halves[i] = [2]*SimConn{srvEnd, cliEnd}
-			be.srvConns[i] = srvEnd
 			ch := &ConnHistory{ID: i, TLSSent: -1, TLSRecv: -1, SrvCloseSeq: -1}
 			h.Conns[i] = ch
 			srvEnd.closeHook = func() {
@@ -237,13 +270,13 @@ func runScenario(t *testing.T, sc *Scenario) (h *History) {
 			}
 			offer := func(net.Conn) bool {
 				for k := 0; k < cs.AcceptErrs; k++ {
-					ln.Offer(nil, tempAcceptErr{})
+					ln.Offer(nil, tempAcceptErr{}, nil)
 				}
 				var c net.Conn = srvEnd
 				if sc.Srv.TLS == tlsImplicit {
 					c = tls.Server(srvEnd, srvTLS)
 				}
-				return ln.Offer(c, nil)
+				return ln.Offer(c, nil, func() { ch.Accepted = true })
 			}
 			if cs.Stub != nil {
 				sh := &StubHistory{}
@@ -314,10 +347,10 @@ func runScenario(t *testing.T, sc *Scenario) (h *History) {
 
 		// Scripted tail of Accept results.
 		for k := 0; k < sc.AcceptTailTemp; k++ {
-			ln.Offer(nil, tempAcceptErr{})
+			ln.Offer(nil, tempAcceptErr{}, nil)
 		}
 		if sc.AcceptPermanent {
-			ln.Offer(nil, errAcceptPermanent)
+			ln.Offer(nil, errAcceptPermanent, nil)
 			sleepClass(classMain, 10*time.Second)
 		}
 
@@ -353,7 +386,6 @@ func runScenario(t *testing.T, sc *Scenario) (h *History) {
 		default:
 		}
 	})
-	return h
 }
 
 // filterBubbleGoroutines keeps the stacks of goroutines that belong to the
